@@ -68,16 +68,19 @@ Proof. exact scalar_format_clean. Qed.
 
 (* any character set, any escape function with clean output, any writer, any autoescape override *)
 Theorem C01_safe_flag_invariant :
-  forall (W : Type) (wr : W -> str -> option W) (wd : world) (ok : N -> bool) (Wok : W -> Prop) (ae : option bool),
-  world_ok wd ok ae ->
-  (forall w t w', wr w t = Some w' -> Wok w -> clean ok t = true -> Wok w') ->
+  forall (W : Type) (wr : W -> str -> option W) (wd : world) (ok : N -> bool) (Wok : W -> Prop) (ae : option bool)
+         (T : str -> Prop),          (* anything that holds of literal text, formatted safe values, escaper results *)
+  world_ok wd ok ae T ->
+  (forall w t w', wr w t = Some w' -> Wok w -> clean ok t = true -> T t -> Wok w') ->
+  (forall v, value_is_safe v = true -> T (w_format wd v)) ->
+  (forall v, value_is_safe v = false -> T (w_escape wd (w_format wd v))) ->
   forall fuel tpl depth ch ip s o,
-  tpl_okP ok ae tpl ->
-  chunk_okP ok ch ->                      (* chunk_ok ok ch = true /\ bodies_from_capture ch = true *)
+  tpl_okP ok ae T tpl ->
+  chunk_okP ok T ch ->                    (* chunk_ok ok ch = true /\ bodies_from_capture ch = true /\ T of every WriteText *)
   cmatch (the_table ch) ip s ->           (* the state is one the checked table allows at ip (any state at ip = 0) *)
-  SInv ok s -> OInv W ok Wok o ->
+  SInv ok T s -> OInv W ok Wok o ->
   match run W wr wd fuel tpl ae depth ch ip s o with
-  | RDone s' o' => SInv ok s' /\ OInv W ok Wok o'
+  | RDone s' o' => SInv ok T s' /\ OInv W ok Wok o'
   | _ => True
   end.
 Proof. exact run_inv. Qed.
@@ -186,6 +189,63 @@ Theorem C01_world1_satisfies_hypotheses : forall fp tpls comps,
       obody_ok ok_html b = true -> ctx_ok ok_html c = true).
 Proof. exact world1_satisfies_hypotheses. Qed.
 
+(* ---------- the escape function is a parameter (Tera::set_escape_fn) ---------- *)
+
+(* The invariant above never looks inside w_escape. Two corollaries make that explicit.
+
+   (a) ANY escape function and ANY character set it avoids: the statement of
+   C01_no_raw_data_when_autoescape_on with `escape_html`/`ok_html` replaced by an arbitrary pair. *)
+Theorem C01_no_raw_data_any_escaper :
+  forall (wd : world) (ok : N -> bool),
+  (forall s, clean ok (w_escape wd s) = true) ->
+  (forall v, value_is_safe v = true -> vok ok v = true -> clean ok (w_format wd v) = true) ->
+  (forall n v k sc r sf, w_filter wd n v k sc = Some (ROk r, sf) ->
+      vok ok v = true -> kw_ok ok k = true -> scope_ok ok sc = true -> vok ok (if sf then mark_safe r else r) = true) ->
+  (forall n k sc r sf, w_function wd n k sc = Some (ROk r, sf) ->
+      kw_ok ok k = true -> scope_ok ok sc = true -> vok ok (if sf then mark_safe r else r) = true) ->
+  (forall i a b c, w_math wd i a b = ROk c -> vok ok a = true -> vok ok b = true -> vok ok c = true) ->
+  (forall a c, w_negate wd a = ROk c -> vok ok a = true -> vok ok c = true) ->
+  (forall m k x, w_map_get wd m k = Some x -> kw_ok ok m = true -> vok ok x = true) ->
+  (forall v a x, w_get_attr wd v a = Some x -> vok ok v = true -> vok ok x = true) ->
+  (forall n d ch, assoc_get (w_components wd) n = Some (d, ch) ->
+      forall k b c, w_build_ctx wd d k b = ROk c -> kw_ok ok k = true -> obody_ok ok b = true -> ctx_ok ok c = true) ->
+  (forall n d c, assoc_get (w_components wd) n = Some (d, c) -> chunk_ok ok c = true /\ bodies_from_capture c = true) ->
+  (forall n t, assoc_get (w_templates wd) n = Some t -> tpl_ok ok t = true /\ tpl_bodies_ok t = true) ->
+  forall fuel tpl block c g,
+  tpl_ok ok tpl = true -> tpl_bodies_ok tpl = true -> ctx_ok ok c = true -> ctx_ok ok g = true ->
+  match render_to str wr_str wd fuel tpl block c g [] with
+  | RDone _ (SinkTop out) => clean ok out = true
+  | _ => True
+  end.
+Proof. exact no_raw_data_any_escaper. Qed.
+
+(* an instance that is not HTML: the xNN-style JS-string escaper the harness installs *)
+Theorem C01_js_escaper_clean : forall s, clean ok_js (escape_js s) = true.
+Proof. exact escape_js_clean. Qed.
+
+(* (b) THE MARKER FORM. The top-level writer records every write_all as one piece. Whatever the
+   escape function, the filters and the data are -- the only hypotheses are about the chunks
+   (autoescape on, bodies minted, WriteText carries literal text `Lit`) -- every piece is
+   literal text, a SAFE value as formatted, or the escape function applied to the formatted value
+   of a value that is NOT safe: the escaper is called on exactly the unsafe writes, once each,
+   and nothing else reaches the output. (Text captured earlier is such a safe value: its own
+   pieces were subject to the same statement when they were written into the buffer -- that is
+   the invariant. A constant string printed by `{{ "lit" }}` is an unsafe value: an optimiser
+   that turns it into WriteText makes `Lit` false of that chunk, which is how seeded change S82
+   shows up.) *)
+Theorem C01_writes_are_pieces :
+  forall (wd : world) (ae : option bool) (Lit : str -> Prop),
+  (forall n t, assoc_get (w_templates wd) n = Some t -> tpl_okP allok ae (piece wd Lit) t) ->
+  (forall n d c, assoc_get (w_components wd) n = Some (d, c) -> chunk_okP allok (piece wd Lit) c) ->
+  forall fuel tpl depth ch ip s w,
+  tpl_okP allok ae (piece wd Lit) tpl -> chunk_okP allok (piece wd Lit) ch -> cmatch (the_table ch) ip s ->
+  blocks_okP allok (piece wd Lit) (blocks s) -> Forall (piece wd Lit) w ->
+  match run (list str) wr_pieces wd fuel tpl ae depth ch ip s (SinkTop w) with
+  | RDone _ (SinkTop w') => Forall (piece wd Lit) w'
+  | _ => True
+  end.
+Proof. exact writes_are_pieces. Qed.
+
 (* ---------- (B) the sinks and the mint points ---------- *)
 
 (* every WriteTop / WritePath write is one event: ERaw v (text = format v) or EEsc v (text = escape (format v)) *)
@@ -268,6 +328,8 @@ Print Assumptions C01_no_raw_data_when_autoescape_on.
 Print Assumptions C01_render_component_clean.
 Print Assumptions C01_default_escaper_clean.
 Print Assumptions C01_autoescape_flag_by_suffix.
+Print Assumptions C01_writes_are_pieces.
+Print Assumptions C01_no_raw_data_any_escaper.
 
 (* ---------- non-vacuity ---------- *)
 
@@ -295,6 +357,32 @@ Example C01_ex_render :
   | _ => False
   end%N.
 Proof. vm_compute. split; reflexivity. Qed.
+
+(* the same program under the marker escaper, with the piece-recording writer: literal, escaped
+   unsafe value, literal, RAW safe capture, ... -- and the literal-expression case of S82 *)
+Example C01_ex_pieces :
+  match render_to (list str) wr_pieces (with_escape (world1 false fp_placeholder [(s_p, ex_tpl)] []) escape_marker) 200 ex_tpl None
+                  [(s_p, VStr poison0 false)] [] [] with
+  | RDone _ (SinkTop w) =>
+      w = [ [91] ++ escape_marker poison0 ++ [93];          (* the capture, printed as is: one raw piece *)
+            [124];
+            firstn 2 (skipn 1 ([91] ++ escape_marker poison0));   (* slice of the capture: still raw *)
+            [124];
+            escape_marker poison0 ]
+  | _ => False
+  end%N.
+Proof. vm_compute. reflexivity. Qed.
+
+Example C01_ex_literal_expression_is_escaped :
+  let lit := [122; 167; 47]%N in
+  let ch := [LoadConst (VStr lit false); WriteTop] in
+  match render_to (list str) wr_pieces
+          (with_escape (world1 false fp_placeholder [] []) escape_marker) 20
+          {| t_name := s_p; t_chunk := ch; t_root_chunk := ch; t_lineage := []; t_autoescape := true |} None [] [] [] with
+  | RDone _ (SinkTop w) => w = [escape_marker lit]
+  | _ => False
+  end.
+Proof. vm_compute. reflexivity. Qed.
 
 (* with autoescape off the same program writes the poison verbatim *)
 Example C01_ex_render_off :
